@@ -17,7 +17,7 @@ from collections.abc import Callable, Iterable, Sized
 from dataclasses import dataclass, field
 from functools import wraps
 from itertools import count
-from math import inf
+from math import inf, isnan, ulp
 from opcode import opname
 from types import BuiltinFunctionType, BuiltinMethodType, CodeType, MethodType, TracebackType
 from typing import TYPE_CHECKING, Concatenate, ParamSpec
@@ -1018,6 +1018,34 @@ class AbstractExecutionTracer(ABC):  # noqa: PLR0904
         """
 
 
+_SMALLEST_DISTANCE = ulp(0.0)
+
+
+def _numeric_gap(val1, val2) -> float:
+    """Provide the absolute difference of two unequal numbers as a branch distance.
+
+    The result is positive and never NaN, and computing it never raises: operands
+    whose difference is NaN (NaN, infinities of equal sign), does not fit into a
+    float or cannot be computed at all (e.g., ``Decimal`` and ``float``) are
+    infinitely far apart; a difference that is too small to be represented is the
+    smallest positive distance.
+
+    Args:
+        val1: the first number
+        val2: the second number
+
+    Returns:
+        the distance
+    """
+    try:
+        gap = float(abs(val1 - val2))
+    except (ArithmeticError, TypeError, ValueError):
+        return inf
+    if isnan(gap):
+        return inf
+    return max(gap, _SMALLEST_DISTANCE)
+
+
 def _eq(val1, val2) -> float:
     """Distance computation for '=='.
 
@@ -1034,7 +1062,7 @@ def _eq(val1, val2) -> float:
     except TypeError:
         pass
     if is_numeric(val1) and is_numeric(val2):
-        return float(abs(val1 - val2))
+        return _numeric_gap(val1, val2)
     if is_string(val1) and is_string(val2):
         return string_distance(val1, val2)
     if is_bytes(val1) and is_bytes(val2):
@@ -1070,7 +1098,9 @@ def _lt(val1, val2) -> float:
     if val1 < val2:
         return 0.0
     if is_numeric(val1) and is_numeric(val2):
-        return (float(val1) - float(val2)) + 1.0
+        if val1 == val2:
+            return 1.0
+        return _numeric_gap(val1, val2) + 1.0
     if is_string(val1) and is_string(val2):
         return string_lt_distance(val1, val2)
     if is_bytes(val1) and is_bytes(val2):
@@ -1091,7 +1121,7 @@ def _le(val1, val2) -> float:
     if val1 <= val2:
         return 0.0
     if is_numeric(val1) and is_numeric(val2):
-        return float(val1) - float(val2)
+        return _numeric_gap(val1, val2)
     if is_string(val1) and is_string(val2):
         return string_le_distance(val1, val2)
     if is_bytes(val1) and is_bytes(val2):
@@ -1175,6 +1205,29 @@ def _isn(val1, val2) -> float:
     if val1 is not val2:
         return 0.0
     return 1.0
+
+
+def _opposite(distance: float, opposite: Callable[[object, object], float], val1, val2) -> float:
+    """Distance computation for the outcome opposite to an evaluated comparison.
+
+    Exactly one outcome of a predicate is taken.  ``distance`` is the distance of
+    the outcome that Python's own operator decides (0.0 iff that outcome is taken).
+    The negated comparison cannot decide the opposite outcome: for NaN, sets and
+    other partial orders ``not (a < b)`` does not imply ``b <= a``.  It is only used
+    as guidance while the opposite outcome is not taken, where it must be positive.
+
+    Args:
+        distance: the distance of the evaluated comparison
+        opposite: the distance function of the negated comparison
+        val1: the first value for the negated comparison
+        val2: the second value for the negated comparison
+
+    Returns:
+        the distance
+    """
+    if distance > 0.0:
+        return 0.0
+    return opposite(val1, val2) or 1.0
 
 
 _P = ParamSpec("_P")
@@ -1317,49 +1370,35 @@ class ExecutionTracer(AbstractExecutionTracer):  # noqa: PLR0904
 
             match cmp_op:
                 case PynguinCompare.EQ:
-                    distance_true, distance_false = _eq(value1, value2), _neq(value1, value2)
+                    distance_true = _eq(value1, value2)
+                    distance_false = _opposite(distance_true, _neq, value1, value2)
                 case PynguinCompare.NE:
-                    distance_true, distance_false = _neq(value1, value2), _eq(value1, value2)
+                    distance_true = _neq(value1, value2)
+                    distance_false = _opposite(distance_true, _eq, value1, value2)
                 case PynguinCompare.LT:
-                    distance_true, distance_false = (
-                        _lt(value1, value2),
-                        _le(value2, value1),
-                    )
+                    distance_true = _lt(value1, value2)
+                    distance_false = _opposite(distance_true, _le, value2, value1)
                 case PynguinCompare.LE:
-                    distance_true, distance_false = (
-                        _le(value1, value2),
-                        _lt(value2, value1),
-                    )
+                    distance_true = _le(value1, value2)
+                    distance_false = _opposite(distance_true, _lt, value2, value1)
                 case PynguinCompare.GT:
-                    distance_true, distance_false = (
-                        _lt(value2, value1),
-                        _le(value1, value2),
-                    )
+                    distance_true = _lt(value2, value1)
+                    distance_false = _opposite(distance_true, _le, value1, value2)
                 case PynguinCompare.GE:
-                    distance_true, distance_false = (
-                        _le(value2, value1),
-                        _lt(value1, value2),
-                    )
+                    distance_true = _le(value2, value1)
+                    distance_false = _opposite(distance_true, _lt, value1, value2)
                 case PynguinCompare.IN:
-                    distance_true, distance_false = (
-                        _in(value1, value2),
-                        _nin(value1, value2),
-                    )
+                    distance_true = _in(value1, value2)
+                    distance_false = _opposite(distance_true, _nin, value1, value2)
                 case PynguinCompare.NOT_IN:
-                    distance_true, distance_false = (
-                        _nin(value1, value2),
-                        _in(value1, value2),
-                    )
+                    distance_true = _nin(value1, value2)
+                    distance_false = _opposite(distance_true, _in, value1, value2)
                 case PynguinCompare.IS:
-                    distance_true, distance_false = (
-                        _is(value1, value2),
-                        _isn(value1, value2),
-                    )
+                    distance_true = _is(value1, value2)
+                    distance_false = _opposite(distance_true, _isn, value1, value2)
                 case PynguinCompare.IS_NOT:
-                    distance_true, distance_false = (
-                        _isn(value1, value2),
-                        _is(value1, value2),
-                    )
+                    distance_true = _isn(value1, value2)
+                    distance_false = _opposite(distance_true, _is, value1, value2)
                 case _:
                     raise AssertionError("Unknown compare op")
             self._update_metrics(distance_false, distance_true, predicate)
@@ -1379,7 +1418,7 @@ class ExecutionTracer(AbstractExecutionTracer):  # noqa: PLR0904
                     distance_false = len(value)
                 elif is_numeric(value):
                     # For numeric value, we can use their absolute value
-                    distance_false = float(abs(value))
+                    distance_false = _numeric_gap(value, 0)
                 else:
                     # Necessary to use inf instead of 1.0 here,
                     # so that a value for which we can't compute a false distance
@@ -1408,7 +1447,8 @@ class ExecutionTracer(AbstractExecutionTracer):  # noqa: PLR0904
         with self.temporarily_disable():
             value1 = tt.unwrap(value1)
             value2 = tt.unwrap(value2)
-            distance_true, distance_false = _in(value1, value2), _nin(value1, value2)
+            distance_true = _in(value1, value2)
+            distance_false = _opposite(distance_true, _nin, value1, value2)
             self._update_metrics(distance_false, distance_true, predicate)
 
     @_early_return
